@@ -16,7 +16,12 @@ Model checking + fault injection, differential oracle (no expected values anywhe
       must be attached to the interpreter's CURRENT context object;
     - every cell of g must give the same observation in A and B: error, stdout, rendered stack, COMMIT / RUN /
       BIG_MAP_DIFF lazy_diff and result (big_map ids included), and the same canonical state afterwards;
-  * "some cells fail": two failing cells in a row (f1 . f2) before g, for a reduced variant set.
+  * "some cells fail": two failing cells in a row (f1 . f2) before g, for a reduced variant set;
+  * NESTED big_maps: the rollback has to re-bind every big_map reachable from the stack, whatever container it sits in.
+    Structured clean histories  decl T . EMPTY_BIG_MAP [. UPDATE] . wrap_1 ... wrap_k  put an empty / a non-empty big_map
+    under every chain of k value constructors out of {or-left, or-right, option, pair-first, pair-second, list, map value}
+    (T = the resulting type, declared as storage so that `NIL operation ; PAIR ; COMMIT` is a meaningful later cell);
+    failing variants and continuations as above.
 Sessions are replayed from scratch on `Interpreter.reset()` (fresh stack + context); nothing is forked by copying,
 because copying is the mechanism under test.
 """
@@ -34,13 +39,20 @@ RULE = ('BFS over clean cell histories (dedup on canonical session state) x fail
         'one evaluation: session h.f.g against session h.g cell by cell plus canonical state right after f. '
         'states = distinct canonical session states; transitions = Interpreter.execute calls in judged sessions; '
         'traces = complete sessions h.f.g replayed and compared. non-trivial = distinct (state, failing variant) whose '
-        'failing cell ran at least one instruction before failing (side effects to undo)')
+        'failing cell ran at least one instruction before failing (side effects to undo). Phase "nested": the clean histories '
+        'are not BFS states but the structured family decl T . EMPTY_BIG_MAP [. UPDATE] . k value constructors (or-left, '
+        'or-right, option, pair-first, pair-second, list, map value), every chain of constructors up to the depth bound')
 BOUND = {'quick': '15-cell alphabet (incl. BEGIN with a big_map id), failure kinds incl. a failure inside a DIP body, continuations |g|=1; clean histories |h|<=2: all 4 failure kinds at every instruction position + '
                   '2 parse errors + natural failures; |h|=3: {FAIL, ill-typed ADD} at every position + {FAILWITH, underflow} at the '
-                  'end + parse errors + natural failures; two failing cells in a row for |h|<=2',
+                  'end + parse errors + natural failures; two failing cells in a row for |h|<=2; nested: empty and non-empty big_map under '
+                  'every chain of 1..2 constructors out of 7 (112 histories) x {FAIL at every position >= 1 of 16 cells (15 + NIL/PAIR/COMMIT), '
+                  'FAIL at start, parse errors, natural failures} x 16 continuations (the 16 cells)',
          'thorough': '23-cell alphabet; |h|<=2, |g|=1: all 4 failure kinds at every instruction position + parse errors + natural '
                      'failures; |h|=3, |g|=1: {FAIL, ADD} at every position + {FAILWITH, underflow} at the end + parse + natural; '
-                     '|h|<=1, |g|=2: FAIL at every position + parse + natural; two failing cells in a row for |h|<=2, |g|=1'}
+                     '|h|<=1, |g|=2: FAIL at every position + parse + natural; two failing cells in a row for |h|<=2, |g|=1; nested: empty and '
+                     'non-empty big_map under every chain of 1..2 constructors out of 7 (112 histories) x {FAIL, ill-typed ADD at every '
+                     'position of 24 cells (23 + NIL/PAIR/COMMIT), DIP-body failure at the end, parse, natural} x 24 continuations; under every '
+                     'chain of 3 constructors (686 histories) x the quick variant set x 16 continuations'}
 ASSUMPTIONS = ['michelson_to_micheline is a pure function of the cell text: the harness memoises it (PLY table construction '
                'is 80% of a cell otherwise); a session starts from Interpreter.reset(), which installs a fresh stack and context',
                'the failing cell itself is not compared (its own error/stdout are its business); an exception that escapes '
@@ -91,8 +103,73 @@ PARSE_ERRORS = {'parse': 'PUSH int 1 ; ) ; DROP', 'parse-eof': 'PUSH int 1 ; {'}
 NSHARDS = 32
 
 
+# ---- nested big_maps: value constructors wrapping the top of the stack (name, instructions(T), resulting type(T))
+BM_TYPE = '(big_map int int)'
+WRAPS = [
+    ('or-left', lambda T: ['LEFT unit'], lambda T: f'(or {T} unit)'),
+    ('or-right', lambda T: ['RIGHT unit'], lambda T: f'(or unit {T})'),
+    ('option', lambda T: ['SOME'], lambda T: f'(option {T})'),
+    ('pair-first', lambda T: ['UNIT', 'SWAP', 'PAIR'], lambda T: f'(pair {T} unit)'),
+    ('pair-second', lambda T: ['UNIT', 'PAIR'], lambda T: f'(pair unit {T})'),
+    ('list', lambda T: [f'NIL {T}', 'SWAP', 'CONS'], lambda T: f'(list {T})'),
+    ('map value', lambda T: ['SOME', f'EMPTY_MAP int {T}', 'SWAP', 'PUSH int 0', 'UPDATE'], lambda T: f'(map int {T})'),
+]
+NEST_DEPTH = 3      # constructor chains for which alphabet cells exist
+FINISH_TOP = 'finish top'
+
+
+def wrap_chains(lo, hi):
+    """Every chain of lo..hi constructors (indices into WRAPS), shortest first."""
+    return [list(ch) for d in range(lo, hi + 1) for ch in itertools.product(range(len(WRAPS)), repeat=d)]
+
+
+def chain_type(chain):
+    T = BM_TYPE
+    for w in chain:
+        T = WRAPS[w][2](T)
+    return T
+
+
+def wrap_cell(chain_before, w):
+    """(name, instructions) of the cell applying constructor w to a value of type chain_type(chain_before)."""
+    T = chain_type(chain_before)
+    ins = WRAPS[w][1](T)
+    typed = any(T in i for i in ins)
+    return (f'wrap {WRAPS[w][0]}' + (f' of {T}' if typed else ''), ins)
+
+
+def nested_cells():
+    """Generated alphabet cells of the nested phases (appended AFTER the fixed alphabet: recorded indices stay valid)."""
+    cells = [(FINISH_TOP, ['NIL operation', 'PAIR', 'COMMIT'])]
+    seen = {FINISH_TOP}
+    for chain in wrap_chains(0, NEST_DEPTH):
+        if chain:
+            c = (f'decl {chain_type(chain)}', [f'storage {chain_type(chain)}', 'parameter unit', DECL_CODE])
+            if c[0] not in seen:
+                seen.add(c[0])
+                cells.append(c)
+        if len(chain) < NEST_DEPTH:
+            for w in range(len(WRAPS)):
+                c = wrap_cell(chain, w)
+                if c[0] not in seen:
+                    seen.add(c[0])
+                    cells.append(c)
+    return cells
+
+
+_CELLS = {}
+
+
 def cells_for(tier):
-    return CELLS_QUICK if tier == 'quick' else CELLS_QUICK + CELLS_MORE
+    tier = 'quick' if tier == 'quick' else 'thorough'
+    if tier not in _CELLS:
+        _CELLS[tier] = (CELLS_QUICK if tier == 'quick' else CELLS_QUICK + CELLS_MORE) + nested_cells()
+    return _CELLS[tier]
+
+
+def core_indices(tier, core='tier'):
+    """Indices of the fixed alphabet: the quick cells ('quick') or all fixed cells of the tier ('tier')."""
+    return list(range(len(CELLS_QUICK) if (tier == 'quick' or core == 'quick') else len(CELLS_QUICK) + len(CELLS_MORE)))
 
 
 def cell_text(cells, i):
@@ -119,10 +196,15 @@ def variant_class(cells, v):
     return f'{v[3]} at {pos} of {cells[v[1]][0]}'
 
 
-def injected(cells, kinds_all, kinds_end):
+def injected(cells, idxs, kinds_all, kinds_end, skip_start=False):
+    """Failing variants of the cells idxs.  skip_start: a failure before the first instruction is the same whatever cell
+    follows it, so it is kept for the first cell only."""
     out = []
-    for ci, (_, ins) in enumerate(cells):
+    for n, ci in enumerate(idxs):
+        ins = cells[ci][1]
         for p in range(len(ins) + 1):
+            if p == 0 and skip_start and n > 0:
+                continue
             for k in kinds_all:
                 out.append(['inj', ci, p, k])
         for k in kinds_end:
@@ -176,7 +258,7 @@ def cv(x, ctx, att=None):
         return [cv(i, ctx, att) for i in x]
     if isinstance(x, dict):
         return {str(k): cv(v, ctx, att) for k, v in sorted(x.items(), key=lambda kv: str(kv[0]))}
-    if x is Undefined:
+    if isinstance(x, type(Undefined)):     # the empty branch of an `or`: pytezos compares it with ==, a copy is as good
         return 'Undefined'
     if x is None or isinstance(x, (bool, int, str)):
         return x
@@ -356,7 +438,7 @@ def clean_states(tier, L1):
         nxt = []
         for h in frontier:
             ht = [cell_text(cells, i) for i in h]
-            for ci in range(len(cells)):
+            for ci in core_indices(tier):
                 sess, c = run_session(ht + [cell_text(cells, ci)], len(ht) + 1)
                 if sess[-1][0]['error'] is not None:
                     continue
@@ -371,31 +453,70 @@ def clean_states(tier, L1):
     return states
 
 
+def nested_states(tier, lo, hi):
+    """Structured clean histories of the nested phases: decl T . EMPTY_BIG_MAP [. UPDATE] . constructor chain (lo..hi
+    constructors); -> list of (history, canonical-state key | None when the history does not run cleanly)."""
+    key = (tier, 'nested', lo, hi)
+    if key in _BFS:
+        return _BFS[key]
+    cells = cells_for(tier)
+    idx = {c[0]: i for i, c in enumerate(cells)}
+    states = []
+    for chain in wrap_chains(lo, hi):
+        for create in (['EMPTY_BIG_MAP'], ['EMPTY_BIG_MAP', 'UPDATE']):
+            h = [idx[f'decl {chain_type(chain)}']] + [idx[n] for n in create]
+            h += [idx[wrap_cell(chain[:n], w)[0]] for n, w in enumerate(chain)]
+            sess, c = run_session([cell_text(cells, i) for i in h], len(h))
+            clean = all(o['error'] is None for o, _ in sess)
+            states.append((h, ckey(c) if clean else None))
+    _BFS[key] = states
+    return states
+
+
 def plan(tier):
-    """Phases: clean-history bound L1, failure kinds at every position / at the end only, continuation length L2,
-    one or two failing cells."""
+    """Phases: clean-history bound L1 (or, nested phases, the range of constructor-chain lengths), failure kinds at every
+    position / at the end only, continuation length L2, one or two failing cells, which fixed cells serve as failing
+    cells and continuations ('core')."""
+    nested2 = {'name': 'nested', 'nested': (1, 2), 'D0': 0, 'kinds_all': ['FAIL'], 'kinds_end': [], 'L2': 1, 'double': False,
+               'core': 'quick', 'skip_start': True}
     if tier == 'quick':
         return [{'name': 'single', 'L1': 2, 'D0': 0, 'kinds_all': ['FAIL', 'FAILWITH', 'underflow', 'ADD'], 'kinds_end': ['DIPFAIL'], 'L2': 1, 'double': False},
                 {'name': 'single-3', 'L1': 3, 'D0': 3, 'kinds_all': ['FAIL', 'ADD'], 'kinds_end': ['FAILWITH', 'underflow'], 'L2': 1, 'double': False},
-                {'name': 'double', 'L1': 2, 'D0': 0, 'kinds_all': ['FAIL'], 'kinds_end': ['ADD'], 'L2': 1, 'double': True}]
+                {'name': 'double', 'L1': 2, 'D0': 0, 'kinds_all': ['FAIL'], 'kinds_end': ['ADD'], 'L2': 1, 'double': True},
+                nested2]
     return [{'name': 'single', 'L1': 2, 'D0': 0, 'kinds_all': ['FAIL', 'FAILWITH', 'underflow', 'ADD', 'DIPFAIL'], 'kinds_end': [], 'L2': 1, 'double': False},
             {'name': 'single-3', 'L1': 3, 'D0': 3, 'kinds_all': ['FAIL', 'ADD'], 'kinds_end': ['FAILWITH', 'underflow'], 'L2': 1, 'double': False},
             {'name': 'deep', 'L1': 1, 'D0': 0, 'kinds_all': ['FAIL'], 'kinds_end': [], 'L2': 2, 'double': False},
-            {'name': 'double', 'L1': 2, 'D0': 0, 'kinds_all': ['FAIL'], 'kinds_end': ['ADD'], 'L2': 1, 'double': True}]
+            {'name': 'double', 'L1': 2, 'D0': 0, 'kinds_all': ['FAIL'], 'kinds_end': ['ADD'], 'L2': 1, 'double': True},
+            {'name': 'nested', 'nested': (1, 2), 'D0': 0, 'kinds_all': ['FAIL', 'ADD'], 'kinds_end': ['DIPFAIL'], 'L2': 1, 'double': False,
+             'core': 'tier', 'skip_start': False},
+            dict(nested2, name='nested-3', nested=(3, 3))]
+
+
+def phase_states(tier, ph):
+    return nested_states(tier, *ph['nested']) if 'nested' in ph else clean_states(tier, ph['L1'])
+
+
+def phase_cells(tier, ph):
+    """Indices of the cells used as failing cells and as continuations in phase ph."""
+    idxs = core_indices(tier, ph.get('core', 'tier'))
+    if 'nested' in ph:
+        idxs = idxs + [[c[0] for c in cells_for(tier)].index(FINISH_TOP)]
+    return idxs
 
 
 def shards(tier, seed):
-    # the clean-state BFS runs once, here in the parent; the forked workers inherit its result (_BFS)
+    # the clean-state enumeration runs once, here in the parent; the forked workers inherit its result (_BFS)
     for ph in plan(tier):
-        clean_states(tier, ph['L1'])
+        phase_states(tier, ph)
     return [(pi, s) for pi in range(len(plan(tier))) for s in range(NSHARDS)]
 
 
-def variants_for(cells, ph, h):
-    vs = injected(cells, ph['kinds_all'], ph['kinds_end'])
+def variants_for(cells, ph, idxs):
+    vs = injected(cells, idxs, ph['kinds_all'], ph['kinds_end'], ph.get('skip_start', False))
     if not ph['double']:
         vs += [['parse', n] for n in PARSE_ERRORS]
-        vs += [['nat', ci] for ci in range(len(cells))]
+        vs += [['nat', ci] for ci in idxs]
     return vs
 
 
@@ -404,22 +525,27 @@ def run_shard(spec, tier):
     ph = plan(tier)[pi]
     cells = cells_for(tier)
     r = Result()
-    states = clean_states(tier, ph['L1'])
-    conts = [list(g) for g in itertools.product(range(len(cells)), repeat=ph['L2'])]
+    states = phase_states(tier, ph)
+    idxs = phase_cells(tier, ph)
+    conts = [list(g) for g in itertools.product(idxs, repeat=ph['L2'])]
     first = True
     case = None
     for si, (h, sk) in enumerate(states):
         if si % NSHARDS != sh or len(h) < ph['D0']:
             continue
+        if sk is None:      # a structured history that does not run cleanly on this tree: nothing to compare against
+            r.no_verdict += 1
+            r.out('nested history does not run cleanly (not judged)')
+            continue
         r.state(sk)
-        bm = 'big_map on stack' if json.loads(sk)['attach'] else 'no big_map on stack'
+        bm = ('nested big_map on stack' if 'nested' in ph else 'big_map on stack') if json.loads(sk)['attach'] else 'no big_map on stack'
         ht = [cell_text(cells, i) for i in h]
         # reference sessions A = h.g, once per state
         Aof = {}
         for g in conts:
             Aof[tuple(g)], _ = run_session(ht + [cell_text(cells, i) for i in g], len(h) - 1)
             r.transitions += len(h) + len(g)
-        singles = variants_for(cells, ph, h)
+        singles = variants_for(cells, ph, idxs)
         if ph['double']:
             names = [c[0] for c in cells]
             second = [['inj', names.index('PUSH'), 0, 'FAIL'], ['inj', names.index('EMPTY_BIG_MAP'), 1, 'FAIL'],
@@ -464,6 +590,11 @@ def run_shard(spec, tier):
 def finalize(res, tier):
     res.notes.append('clean states are enumerated once by a deterministic BFS in the parent process (inherited by the forked '
                      f'workers); shard (phase, s) judges the states with index mod {NSHARDS} == s')
+    for ph in plan(tier):
+        if 'nested' in ph:
+            st = phase_states(tier, ph)
+            res.notes.append(f'phase {ph["name"]}: {len(st)} structured histories (big_map under {ph["nested"][0]}..{ph["nested"][1]} '
+                             f'value constructors), {sum(1 for _, k in st if k is None)} of them not clean (not judged)')
 
 
 # --------------------------------------------------------------------------------------------- replay / observe
